@@ -325,6 +325,7 @@ class Part:
         self.d = {"evaluations": 0, "distinct": [], "counters": {},
                   "samples": [], "violations": [], "inconclusive": []}
         self._seen = set()
+        self._vcount = {}
 
     def count(self, key, n=1):
         c = self.d["counters"]
@@ -341,8 +342,15 @@ class Part:
             self.d["samples"].append(sample)
 
     def violation(self, witness):
-        if len(self.d["violations"]) < 200:
+        # keep at most 12 witnesses per (kind, mechanism) so that a frequent
+        # class cannot crowd out a rare one; every firing is still counted
+        key = "%s/%s" % (witness.get("kind"), witness.get("mechanism"))
+        n = self._vcount.get(key, 0)
+        self._vcount[key] = n + 1
+        if n < 12 and len(self.d["violations"]) < 400:
             self.d["violations"].append(witness)
+        else:
+            self.count("violations_not_listed:" + key)
         self.count("raw_violations")
 
     def inconclusive(self, reason):
